@@ -2,7 +2,7 @@
    Only the property theorems; each is closed by a lemma of Proofs*.v and followed by
    Print Assumptions.  POLY_COMPARES_COMPTIME_VALUES / POP_CHECKPOINT_MERGES are scraped (Gen.v). *)
 From Coq Require Import ZArith Bool List Permutation.
-From C16 Require Import Gen Model ProofsMemo ProofsPoly ProofsHygiene ProofsExpand ProofsInject.
+From C16 Require Import Gen Model ProofsMemo ProofsPoly ProofsHygiene ProofsExpand ProofsInject ProofsCursor.
 Import ListNotations.
 Local Open Scope Z_scope.
 
@@ -95,7 +95,8 @@ Proof.
 Qed.
 Print Assumptions C16_hygiene_resolution.
 
-(* after the call (merging pop, as scraped): every use-site binding is what it was ... *)
+(* what the merging pop used before b8843bb still guaranteed (vacuous for today's policy): every
+   use-site binding is what it was *)
 Theorem C16_hygiene_use_site_preserved_partial :
   POP_CHECKPOINT_MERGES = true ->
   forall s cp body inside s3,
@@ -107,9 +108,17 @@ Theorem C16_hygiene_use_site_preserved_partial :
 Proof. intros ->. exact hygiene_after_merge_lemma. Qed.
 Print Assumptions C16_hygiene_use_site_preserved_partial.
 
-(* ... but the full statement (scopes exactly as before: names introduced by the body do not
-   leak) is false for the merging pop, and true for a pop that restores with set_checkpoint *)
+(* MAIN HYGIENE OBLIGATION (full strength).  After a hygienized call the scopes are exactly what they
+   were: every use-site binding is preserved AND no name introduced by the body stays behind.  It holds
+   for the code as it is (pop_checkpoint restores with set_checkpoint since b8843bb; the policy fact
+   POP_CHECKPOINT_MERGES = false is checked by computation on Gen.v: if the source goes back to the
+   merging pop this proof no longer checks). *)
 Definition C16_hygiene_no_leak_full : Prop := hygiene_no_leak POP_CHECKPOINT_MERGES.
+Theorem C16_hygiene_no_leak : C16_hygiene_no_leak_full.
+Proof. exact hygiene_no_leak_with_set_lemma. Qed.
+Print Assumptions C16_hygiene_no_leak.
+
+(* the merging pop used before b8843bb violated it (vacuous for today's policy) *)
 Theorem C16_hygiene_no_leak_refuted : POP_CHECKPOINT_MERGES = true -> ~ C16_hygiene_no_leak_full.
 Proof. unfold C16_hygiene_no_leak_full. intros ->. exact hygiene_no_leak_refuted_lemma. Qed.
 Print Assumptions C16_hygiene_no_leak_refuted.
@@ -167,3 +176,19 @@ Theorem C16_hygienize_own_order_refuted :
   HYGIENIZE_USES_CURSORS = false -> HYGIENIZE_ADJUSTS_CALLER = false -> ~ C16_hygienize_own_order_full.
 Proof. unfold C16_hygienize_own_order_full. intros _ ->. exact inject_own_order_refuted_lemma. Qed.
 Print Assumptions C16_hygienize_own_order_refuted.
+
+(* The repair proposed in harness/C16/proposed_repairs/hygienize_cursors.diff (every hygienized function
+   owns a cursor that add_statnode keeps up to date; model hc_run): the full-strength own-order
+   statement holds - for every nesting depth, as long as the function is not re-entered.  This is a
+   theorem about the PROPOSED bookkeeping; it becomes the obligation for the tree once the scrape finds
+   it (HYGIENIZE_USES_CURSORS), until then C16_hygienize_own_order_refuted describes the code. *)
+Theorem C16_hygienize_cursor_own_order :
+  forall s h body,
+    hc_cur s = None -> hc_fn s = None ->
+    (forall f, (hc_saved s f <= length (hc_nodes s))%nat) ->
+    ~ In h (calls_l body) ->
+    (forall x, In x (own_emits body) -> ~ In x (hc_nodes s)) ->
+    (forall y, In y (nested_emits body) -> ~ In y (own_emits body)) ->
+    restrict (own_emits body) (hc_nodes (hc_run s (HCall h body))) = own_emits body.
+Proof. exact cursor_own_order_lemma. Qed.
+Print Assumptions C16_hygienize_cursor_own_order.
